@@ -266,9 +266,10 @@ theorem c07_shape_Overlay_handleSendTree :
 theorem c07_shape_Overlay_handleSendTreeMarshal :
     Shapes.overlay_Overlay_handleSendTreeMarshal =
    ["if:tm.TreeID.IsNil()", "return:", "if:!o.treeStorage.IsRequested(tm.TreeID)", "return:",
-     "if:inst.Roster().ID.Equal(tm.RosterID)", "inst.Roster", "if:(ro==nil)", "io.Wrap",
-     "if:(err!=nil)", "server.Send", "if:(err!=nil)", "o.addPendingTreeMarshal", "return:",
-     "o.handleSendTree"] := rfl
+     "instancesLock.Lock", "treeStorage.Get",
+     "if:(((tree!=nil)&&(tree.Roster!=nil))&&tree.Roster.ID.Equal(tm.RosterID))",
+     "instancesLock.Unlock", "if:(ro==nil)", "io.Wrap", "if:(err!=nil)", "server.Send",
+     "if:(err!=nil)", "o.addPendingTreeMarshal", "return:", "o.handleSendTree"] := rfl
 
 theorem c07_shape_Overlay_handleRequestTree :
     Shapes.overlay_Overlay_handleRequestTree =
